@@ -60,7 +60,8 @@ def _em_ok(self):
         rec.hit("invariant:Emulsion")
     from droplets.droplets import SphericalDroplet
 
-    return hasattr(self, "dtype") and all(isinstance(d, SphericalDroplet) for d in self)
+    # (no condition on `dtype`: an emulsion being restored by pickle has no such attribute until its first append)
+    return all(isinstance(d, SphericalDroplet) for d in self)
 
 
 def _tc_ok(self):
@@ -501,7 +502,7 @@ def new_world(rec, descs, label):
 
     w = World(rec, label)
     for d in descs:
-        r = make_real(d)
+        r = common.via(make_real(d), d.get("route"))  # caller-owned droplets of any provenance (pickled, copied, ...)
         w.pool.append((r, md_of(r)))
     w.ems.append((droplets.Emulsion(), [], None))
     return w
@@ -697,6 +698,14 @@ def run_tr_sequence(seq, rec, rng, label=""):
             log.append("DropletTrack(track)")
             s = DropletTrack(tr)
             others.append((s, [[t, m.copy()] for t, m in model]))
+            if rng.random() < 0.4:
+                # carry on with a track that went through pickle (as when it is sent to/from a worker process
+                # or stored): it must behave like the original under all later operations
+                import pickle
+
+                log.append("track = pickle.loads(pickle.dumps(track))")
+                tr = pickle.loads(pickle.dumps(tr))
+                rec.count("tracks_continued_after_pickle_round_trip")
         elif op == 5:  # mutate a stored droplet
             if model:
                 i = int(rng.integers(len(model)))
@@ -806,6 +815,11 @@ def gen(rng, kind, tier):
         descs = [rand_desc(rng, main, dim) for _ in range(4)]
         if rng.random() < 0.3:
             descs[2] = rand_desc(rng, str(rng.choice(classes)), dim)
+        if main == "PerturbedDroplet2D" and rng.random() < 0.5:
+            descs[2] = rand_desc(rng, main, dim)
+            descs[2]["amps"] = [float(a) for a in rng.uniform(-0.2, 0.2, int(rng.choice([1, 3, 4])))]  # same class, other mode count
+        for dd in descs:
+            dd["route"] = common.pick_route(rng, 0.6)
         descs.append(rand_desc(rng, "SphericalDroplet", dim % 3 + 1))  # wrong dimension
         seq, params = [], []
         for _ in range(L):
